@@ -798,8 +798,10 @@ class StubsStringGenerator:
                     _types = type_data["types"]
                     literal_type_data = _types[0] if _types[0]["kind"] == "LiteralType" else _types[1]
 
-                    literal_type_data["literals"].append(None)
-                    return self._create_type_string(literal_type_data)
+                    # Create a new literal type, the list of literals belongs to the API model and must not be changed
+                    return self._create_type_string(
+                        {"kind": "LiteralType", "literals": [*literal_type_data["literals"], None]},
+                    )
 
             # Union items have to be unique, therefore we use sets. But the types set has to be a sorted list, since
             # otherwise the snapshot tests would fail b/c element order in sets is non-deterministic.
